@@ -634,6 +634,9 @@ func (e *analysisEngine) analyzers(perAnalyzer int) {
 		for i := 0; i < perAnalyzer; i++ {
 			inputs = append(inputs, analysisGen(e.rng, ae.name))
 		}
+		if ae.name == "web" {
+			inputs = append(inputs, analysisPatternInputs(e.rng, 2*perAnalyzer)...)
+		}
 		for _, in := range inputs {
 			e.analyzeOne(ae.name, ae.mk, in)
 		}
@@ -842,6 +845,10 @@ func (e *analysisEngine) tokenizers(per int) {
 		for i := 0; i < per; i++ {
 			inputs = append(inputs, analysisGen(e.rng, ""))
 		}
+		switch te.name { // the regexp-driven ones: texts that match their patterns
+		case "web", "exception", "exception-ws", "regexp-w", "regexp-S", "regexp-empty":
+			inputs = append(inputs, analysisPatternInputs(e.rng, per)...)
+		}
 		for _, in := range inputs {
 			text := append([]byte{}, in.data...)
 			var s1, s2 []analysisTokSnap
@@ -890,6 +897,7 @@ func (e *analysisEngine) charFilters(per int) {
 		for i := 0; i < per; i++ {
 			inputs = append(inputs, analysisGen(e.rng, ""))
 		}
+		inputs = append(inputs, analysisPatternInputs(e.rng, per)...)
 		switch ce.name { // more of the text these two rewrite
 		case "asciifolding":
 			for i := 0; i < 4*per; i++ {
@@ -1787,6 +1795,8 @@ func runAnalysis(o Opts) error {
 	e.exactFilters(45 * scale)
 	e.freqs(60 * scale)
 	e.docs(40 * scale)
+	e.merges(40 * scale)
+	e.composites(40 * scale)
 	e.matchRoundTrip(10 * scale)
 	if o.Thorough() {
 		e.sweep(8, 6, 60000, 600, 12)
